@@ -272,15 +272,19 @@ pub struct WritePlan {
     pub chunk: Chunk,
     pub eintr: Vec<u64>,
     pub fault: Option<WriteFault>,
+    /// The sink implements `write_vectored` itself (like a file or a slice does): one call may take bytes from
+    /// several buffers and stop anywhere. Otherwise the default (first non-empty buffer only) applies.
+    #[serde(default)]
+    pub vectored: bool,
 }
 
 impl WritePlan {
     pub fn plain() -> WritePlan {
-        WritePlan { chunk: Chunk::Unbounded, eintr: Vec::new(), fault: None }
+        WritePlan { chunk: Chunk::Unbounded, eintr: Vec::new(), fault: None, vectored: false }
     }
 
     pub fn generate(rng: &mut Rng, approx_calls: u64) -> WritePlan {
-        WritePlan { chunk: Chunk::generate(rng), eintr: gen_eintr(rng, approx_calls), fault: None }
+        WritePlan { chunk: Chunk::generate(rng), eintr: gen_eintr(rng, approx_calls), fault: None, vectored: rng.chance(1, 3) }
     }
 }
 
@@ -347,6 +351,18 @@ impl Write for SimWriter {
         }
         self.stats.note(if n < buf.len() { b's' } else { b'w' }, n);
         Ok(n)
+    }
+
+    fn write_vectored(&mut self, bufs: &[io::IoSlice<'_>]) -> io::Result<usize> {
+        if !self.plan.vectored {
+            // What std does for a type that only implements `write`.
+            let first = bufs.iter().find(|b| !b.is_empty()).map_or(&[][..], |b| &**b);
+            return self.write(first);
+        }
+        // Natively vectored: the buffers are one logical byte string; chunking and faults apply to it as a whole.
+        let joined: Vec<u8> = bufs.iter().flat_map(|b| b.iter().cloned()).collect();
+        self.stats.note(b'v', bufs.len());
+        self.write(&joined)
     }
 
     fn flush(&mut self) -> io::Result<()> {
